@@ -28,6 +28,11 @@ type Linear struct {
 	// across runs), readers must only ever see one of those states.
 	Big     int              `json:"big,omitempty"`
 	BigOps  int              `json:"big_ops,omitempty"`
+	// Markers > 0 (with Big): a huge population of Big objects that never change plus
+	// Markers marker objects which one writer raises, round after round in a fixed
+	// order, by single update events; every List() of the readers must be a state
+	// that existed (marker versions never increase with the index, spread <= 1)
+	Markers int `json:"markers,omitempty"`
 	Prop    string           `json:"prop"`
 	Filter  world.FilterSpec `json:"filter"`
 	Writers [][]CacheOp      `json:"writers"`
@@ -72,6 +77,12 @@ func genC15(g GenCtx) interface{} {
 		// optimisation only shows above its threshold
 		sc.Big = pickInt(rng, 9, 33, 65, 130, 260, 520, 1030)
 		sc.BigOps = 2 + rng.Intn(3)
+		if (g.Idx/8)%32 == 1 {
+			// tens of thousands of objects under a stream of single updates
+			sc.Big = pickInt(rng, 9000, 17000, 33000)
+			sc.Markers = pickInt(rng, 8, 24)
+			sc.BigOps = 3 + rng.Intn(4)
+		}
 		nr := 1 + rng.Intn(3)
 		for r := 0; r < nr; r++ {
 			var ops []string
@@ -160,7 +171,85 @@ func genC15(g GenCtx) interface{} {
 // runC15Big: one writer replaces the whole content by complete states of
 // sc.Big objects; every List() of every reader must equal one of the states
 // the writer produced (never a half-applied relist).
+// runC15Markers: see Linear.Markers.
+func runC15Markers(sc *Linear) {
+	ctx, cancel := context.WithCancel(context.Background())
+	defer cancel()
+	c := kcache.VerifNewCache(ctx, world.NewLog(false), make(chan struct{}), world.FilterSpec{}.Build())
+	var l []metav1.Object
+	for k := 0; k < sc.Big; k++ {
+		l = append(l, world.BuildMeta("pod", world.Spec{NS: "pad", Name: "p" + strconv.Itoa(k), RV: "1"}))
+	}
+	// the markers' names sort evenly among the padding: whatever order a map
+	// iteration takes (the simulator's permutations of big maps are rotations and
+	// reversals of the sorted order), they are spread over the whole population
+	mname := func(i int) string { return fmt.Sprintf("p%05d-m%03d", i*sc.Big/sc.Markers, i) }
+	for i := 0; i < sc.Markers; i++ {
+		l = append(l, world.BuildMeta("pod", world.Spec{NS: "pad", Name: mname(i), RV: "1", Labels: map[string]string{"marker": "1"}}))
+	}
+	if _, err := c.Sync(l); err != nil {
+		detsim.Fail("cache-op-error", "sync on a running cache: %v", err)
+	}
+	done := make(chan struct{})
+	left := 1 + len(sc.Readers)
+	fin := func() {
+		left--
+		if left == 0 {
+			close(done)
+		}
+	}
+	go func() {
+		defer fin()
+		for round := 2; round < 2+sc.BigOps; round++ {
+			for i := 0; i < sc.Markers; i++ {
+				if _, err := c.Update(kcache.NewEvent(kcache.EventTypeUpdate, world.BuildMeta("pod", world.Spec{NS: "pad", Name: mname(i), RV: strconv.Itoa(round), Labels: map[string]string{"marker": "1"}}))); err != nil {
+					detsim.Fail("cache-op-error", "update on a running cache: %v", err)
+				}
+			}
+		}
+	}()
+	for r := range sc.Readers {
+		ops := sc.Readers[r]
+		go func() {
+			defer fin()
+			for range ops {
+				objs, err := c.List()
+				if err != nil {
+					detsim.Fail("cache-read-error", "List on a running cache: %v", err)
+				}
+				vers := make([]int, sc.Markers)
+				n := 0
+				for _, o := range objs {
+					if o.GetLabels()["marker"] != "" {
+						var pos, i int
+						fmt.Sscanf(o.GetName(), "p%d-m%d", &pos, &i)
+						vers[i], _ = strconv.Atoi(o.GetResourceVersion())
+						n++
+					}
+				}
+				world.Scribble(objs)
+				if n != sc.Markers || len(objs) != sc.Big+sc.Markers {
+					detsim.Fail("torn-read", "List() returned %d objects (%d markers) of a cache that always holds %d (%d markers)", len(objs), n, sc.Big+sc.Markers, sc.Markers)
+				}
+				for i := 1; i < sc.Markers; i++ {
+					if vers[i] > vers[i-1] || vers[0]-vers[i] > 1 {
+						detsim.Fail("torn-read", "List() over %d objects returned a state that never existed: the markers are raised one by one in index order, yet the snapshot shows %v (index %d)", len(objs), vers, i)
+					}
+				}
+				detsim.Yield("reader")
+			}
+		}()
+	}
+	if !world.WaitClosed(done, time.Hour) {
+		detsim.Fail("wedge", "cache clients did not finish")
+	}
+}
+
 func runC15Big(sc *Linear) {
+	if sc.Markers > 0 {
+		runC15Markers(sc)
+		return
+	}
 	ctx, cancel := context.WithCancel(context.Background())
 	defer cancel()
 	c := kcache.VerifNewCache(ctx, world.NewLog(false), make(chan struct{}), world.FilterSpec{}.Build())
